@@ -118,6 +118,11 @@ def script(cfg, policy, items, dump=True, close=True, extra_after=()):
 TOKEN_CHARS = b"abcdefghijklmnopqrstuvwxyzABCDEFGHIJKLMNOPQRSTUVWXYZ0123456789-_!#$%&'*+.^`|~"
 KNOWN_METHODS = [b"GET", b"POST", b"PUT", b"DELETE", b"HEAD", b"OPTIONS", b"PATCH", b"TRACE", b"PROPFIND"]
 VCHARS = bytes(range(0x21, 0x7f))
+URI_CHARS = b"abcdefghijklmnopqrstuvwxyzABCDEFGHIJKLMNOPQRSTUVWXYZ0123456789-._~!$'()*,;"
+
+
+def rand_uri_token(rng, lo=1, hi=8):
+    return bytes(rng.choice(URI_CHARS) for _ in range(rng.randint(lo, hi)))
 
 
 def rand_token(rng, lo=1, hi=8):
@@ -146,10 +151,10 @@ def gen_request(rng, idx, opts):
     if m.method in (b"HEAD",) and rng.random() < 0.5:
         m.method = b"GET"
     form = rng.random()
-    path = b"/" + b"/".join(rand_token(rng, 1, 5) for _ in range(rng.randint(0, 3)))
+    path = b"/" + b"/".join(rand_uri_token(rng, 1, 5).lstrip(b".") or b"p" for _ in range(rng.randint(0, 3)))
     query = b""
     if rng.random() < 0.4:
-        query = b"?" + b"&".join(rand_token(rng, 1, 3) + b"=" + rand_token(rng, 0, 4) if rng.random() < 0.8 else rand_token(rng, 1, 3)
+        query = b"?" + b"&".join(rand_uri_token(rng, 1, 3) + b"=" + rand_uri_token(rng, 0, 4) if rng.random() < 0.8 else rand_uri_token(rng, 1, 3)
                                   for _ in range(rng.randint(1, 3)))
     m.id = b"id%d" % idx
     if form < 0.8:
@@ -158,7 +163,7 @@ def gen_request(rng, idx, opts):
             query = b"?" + m.id
         uri_host = None
     else:
-        uri_host = rand_token(rng, 1, 5).replace(b"%", b"x").lower() + b".example"
+        uri_host = re.sub(rb"[^a-z0-9]", b"x", rand_token(rng, 1, 5).lower()) + b".example"
         m.target = b"http://" + uri_host + path + query
     m.version = rng.choice((b"HTTP/1.1", b"HTTP/1.1", b"HTTP/1.0"))
     m.headers = []   # (name, [value pieces (fold points)])
